@@ -2,7 +2,7 @@
    convert_to_object computes; hence ffi.unpack = element-wise reading. *)
 From Coq Require Import ZArith List Bool Lia.
 Import ListNotations.
-From Cffi Require Import C18.Model C18.Gen.
+From Cffi Require Import C15.WProofs C18.Model C18.Gen.
 Open Scope Z_scope.
 
 (* ---------------------------------------------------------------- arithmetic of the decoders *)
@@ -334,7 +334,7 @@ Lemma gen_loop_char2 : forall n a bs,
 Proof.
   induction n as [|n IH]; intros a bs; [reflexivity|].
   cbn [gen_loop convert_to_object ksize units]. cbn [Z.eqb Pos.eqb].
-  unfold from_char16. cbn [count_surrogates Z.eqb]. rewrite IH. reflexivity.
+  rewrite from_char16_single. rewrite IH. reflexivity.
 Qed.
 
 Lemma concat_values_str : forall l, concat_values (map (fun u => VStr [u]) l) = l.
@@ -353,7 +353,7 @@ Proof.
   rewrite gen_loop_char2.
   unfold unpack. destruct (Z.ltb_spec n 0); [lia|]. destruct (Z.eqb_spec addr 0); [contradiction|].
   rewrite in_model by (cbn [ksize]; lia).
-  cbn [joined Z.eqb Pos.eqb]. unfold from_char16. rewrite Hc. cbn [Z.eqb of_res].
+  cbn [joined Z.eqb Pos.eqb]. rewrite from_char16_eq, Hc. cbn [Z.eqb of_res].
   rewrite concat_values_str. reflexivity.
 Qed.
 
@@ -363,35 +363,11 @@ Definition encode16_cp (c : Z) : list Z :=
   if 0xFFFF <? c then [0xD800 + (c - 0x10000) / 1024; 0xDC00 + (c - 0x10000) mod 1024] else [c].
 Definition encode16 (s : list Z) : list Z := flat_map encode16_cp s.
 
-Lemma lor_shiftl_add : forall x y, 0 <= x -> 0 <= y < 1024 ->
-  Z.lor (Z.shiftl x 10) y = x * 1024 + y.
-Proof.
-  intros x y Hx Hy.
-  assert (Z.land (Z.shiftl x 10) y = 0) as Hd.
-  { apply Z.bits_inj'. intros i Hi. rewrite Z.land_spec, Z.bits_0.
-    destruct (Z.ltb_spec i 10).
-    - rewrite Z.shiftl_spec_low by lia. reflexivity.
-    - destruct (Z.eq_dec y 0) as [->|Hne]; [rewrite Z.bits_0; apply andb_false_r|].
-      rewrite (Z.bits_above_log2 y i); [apply andb_false_r|lia|].
-      apply Z.log2_lt_pow2; [lia|]. apply Z.lt_le_trans with (2 ^ 10); [lia|].
-      apply Z.pow_le_mono_r; lia. }
-  rewrite <- Z.lxor_lor by assumption. rewrite <- Z.add_nocarry_lxor by assumption.
-  rewrite Z.shiftl_mul_pow2 by lia. reflexivity.
-Qed.
-
 Lemma join_pair_encode : forall a b, is_hi a = true -> is_lo b = true ->
   encode16_cp (join_pair a b) = [a; b].
 Proof.
-  intros a b Ha Hb. unfold is_hi in Ha. unfold is_lo in Hb.
-  apply andb_prop in Ha. apply andb_prop in Hb. destruct Ha as [Ha1 Ha2], Hb as [Hb1 Hb2].
-  apply Z.leb_le in Ha1, Ha2, Hb1, Hb2.
-  unfold join_pair.
-  change 0x3FF with (Z.ones 10). rewrite !Z.land_ones by lia. change (2 ^ 10) with 1024.
-  assert (a mod 1024 = a - 0xD800) as Ea.
-  { symmetry. apply Z.mod_unique with (q := 54); lia. }
-  assert (b mod 1024 = b - 0xDC00) as Eb.
-  { symmetry. apply Z.mod_unique with (q := 55); lia. }
-  rewrite Ea, Eb. rewrite lor_shiftl_add by lia.
+  intros a b Ha Hb. rewrite join_pair_val by assumption.
+  apply is_hi_range in Ha. apply is_lo_range in Hb.
   unfold encode16_cp.
   destruct (Z.ltb_spec 0xFFFF ((a - 0xD800) * 1024 + (b - 0xDC00) + 0x10000)); [|lia].
   replace ((a - 0xD800) * 1024 + (b - 0xDC00) + 0x10000 - 0x10000)
@@ -405,11 +381,6 @@ Proof. reflexivity. Qed.
 
 Lemma encode16_cp_unit : forall a, 0 <= a < 0x10000 -> encode16_cp a = [a].
 Proof. intros a H. unfold encode16_cp. destruct (Z.ltb_spec 0xFFFF a); [lia|reflexivity]. Qed.
-
-Lemma join16_loop_cons2 : forall a b r,
-  join16_loop (a :: b :: r) =
-  if is_hi a && is_lo b then join_pair a b :: join16_loop r else a :: join16_loop (b :: r).
-Proof. reflexivity. Qed.
 
 Lemma encode16_join16 : forall w, Forall (fun u => 0 <= u < 0x10000) w ->
   encode16 (join16_loop w) = w.
@@ -458,7 +429,7 @@ Proof.
   rewrite in_model by (cbn [ksize]; lia).
   cbn [joined Z.eqb Pos.eqb]. rewrite concat_values_str.
   pose proof (units2_range (Z.to_nat n) bs) as R.
-  unfold from_char16.
+  rewrite from_char16_eq.
   destruct (count_surrogates (units 2 bs (Z.to_nat n)) =? 0); cbn [of_res utf16].
   - reflexivity.
   - rewrite encode16_join16, encode16_units by assumption. reflexivity.
@@ -475,7 +446,7 @@ Lemma from_char32_cons : forall u w,
   if 0x10FFFF <? u then Err SystemError
   else match from_char32 w with Ok l => Ok (u :: l) | Err e => Err e end.
 Proof.
-  intros u w. unfold from_char32. cbn [existsb].
+  intros u w. rewrite !from_char32_eq. cbn [existsb].
   destruct (0x10FFFF <? u); cbn [orb]; [reflexivity|].
   destruct (existsb (fun u0 => 0x10FFFF <? u0) w); reflexivity.
 Qed.
@@ -567,3 +538,96 @@ Proof.
   - unfold index. destruct (Z.eqb_spec addr 0); [contradiction|].
     replace (n - 1 + 1) with n by lia. rewrite E. reflexivity.
 Qed.
+
+(* ---------------------------------------------------------------- whole run vs unit by unit, on the
+   REGENERATED helpers of wchar_helper_3.h (C15/Gen.v), for ALL unit lists *)
+(* ''.join of per-unit conversions: the first exception, else the concatenation *)
+Fixpoint concat_res (l : list (res (list Z))) : res (list Z) :=
+  match l with
+  | [] => Ok []
+  | r :: t => match r with
+              | Err e => Err e
+              | Ok x => match concat_res t with Err e => Err e | Ok y => Ok (x ++ y) end
+              end
+  end.
+
+(* char32_t / wchar_t: converting the whole run is converting unit by unit and concatenating *)
+Theorem from_char32_elementwise : forall w,
+  from_char32 w = concat_res (map (fun u => from_char32 [u]) w).
+Proof.
+  induction w as [|u r IH]; [reflexivity|].
+  cbn [map concat_res]. rewrite <- IH. rewrite (from_char32_cons u r), (from_char32_cons u []).
+  destruct (0x10FFFF <? u); [reflexivity|].
+  change (from_char32 []) with (@Ok (list Z) []).
+  destruct (from_char32 r); reflexivity.
+Qed.
+
+(* ... and no unit is dropped, altered, combined or interpreted (no BOM, no surrogate handling) *)
+Theorem from_char32_identity : forall w s, from_char32 w = Ok s -> s = w.
+Proof.
+  intros w s H. rewrite from_char32_eq in H.
+  destruct (existsb (fun u => 0x10FFFF <? u) w); [discriminate|]. inversion H. reflexivity.
+Qed.
+
+Theorem from_char32_error : forall w e, from_char32 w = Err e ->
+  e = SystemError /\ exists u, In u w /\ 0x10FFFF < u /\ from_char32 [u] = Err SystemError.
+Proof.
+  intros w e H. rewrite from_char32_eq in H.
+  destruct (existsb (fun u => 0x10FFFF <? u) w) eqn:E; [|discriminate]. inversion H; subst.
+  split; [reflexivity|]. apply existsb_exists in E. destruct E as [u [Hin Hu]].
+  exists u. split; [exact Hin|]. split; [apply Z.ltb_lt; exact Hu|].
+  rewrite from_char32_eq. cbn [existsb]. rewrite Hu. reflexivity.
+Qed.
+
+Theorem from_char32_ok : forall w, Forall (fun u => u <= 0x10FFFF) w -> from_char32 w = Ok w.
+Proof.
+  intros w H. rewrite from_char32_eq.
+  assert (existsb (fun u => 0x10FFFF <? u) w = false) as ->; [|reflexivity].
+  induction H as [|u r Hu Hr IH]; [reflexivity|]. cbn [existsb]. rewrite IH.
+  destruct (Z.ltb_spec 0x10FFFF u); [lia|reflexivity].
+Qed.
+
+(* char16_t: unit by unit nothing is ever joined ... *)
+Lemma concat_res_singletons16 : forall w, concat_res (map (fun u => from_char16 [u]) w) = Ok w.
+Proof.
+  induction w as [|u r IH]; [reflexivity|]. cbn [map concat_res].
+  rewrite from_char16_single, IH. reflexivity.
+Qed.
+
+(* ... so the whole-run conversion equals the unit-by-unit one EXACTLY when no high surrogate is
+   immediately followed by a low surrogate *)
+Theorem from_char16_elementwise_iff : forall w,
+  from_char16 w = concat_res (map (fun u => from_char16 [u]) w) <-> count_surrogates w = 0.
+Proof.
+  intros w. rewrite concat_res_singletons16, from_char16_join, <- join16_fixed_iff.
+  split; [intros H; inversion H; congruence|intros ->; reflexivity].
+Qed.
+
+(* the same at the level of ffi.unpack on memory *)
+Theorem unpack_elementwise_char16_iff : forall tb align addr bs n,
+  0 <= n -> n * 2 <= Z.of_nat (length bs) -> addr <> 0 ->
+  (unpack tb (KChar 2) align addr bs n = joined (KChar 2) (elementwise (KChar 2) addr bs n)
+   <-> count_surrogates (units 2 bs (Z.to_nat n)) = 0).
+Proof.
+  intros tb align addr bs n Hn Hb Ha.
+  rewrite elementwise_gen_loop by (cbn [ksize]; lia || assumption).
+  rewrite gen_loop_char2.
+  unfold unpack. destruct (Z.ltb_spec n 0); [lia|]. destruct (Z.eqb_spec addr 0); [contradiction|].
+  rewrite in_model by (cbn [ksize]; lia).
+  cbn [joined Z.eqb Pos.eqb]. rewrite concat_values_str, from_char16_join. cbn [of_res].
+  rewrite <- join16_fixed_iff.
+  split; [intros HH; inversion HH; congruence|intros ->; reflexivity].
+Qed.
+
+Theorem from_char16_differs_iff : forall w,
+  from_char16 w <> concat_res (map (fun u => from_char16 [u]) w) <->
+  exists l1 a b l2, w = l1 ++ a :: b :: l2 /\ 0xD800 <= a <= 0xDBFF /\ 0xDC00 <= b <= 0xDFFF.
+Proof.
+  intros w. rewrite from_char16_elementwise_iff, count_pos_has_pair. unfold has_pair.
+  split; intros [l1 [a [b [l2 [H1 [H2 H3]]]]]]; exists l1, a, b, l2;
+    (split; [exact H1|]); split; first [apply is_hi_range; assumption | apply is_lo_range; assumption].
+Qed.
+
+Theorem from_char16_allocation_exact : forall w,
+  from_char16 w = Ok (join16_loop w) /\ zlen (join16_loop w) = zlen w - count_surrogates w.
+Proof. intros w. split; [apply from_char16_join|]. pose proof (join16_length w). lia. Qed.
